@@ -62,6 +62,11 @@ func (dv *DocumentVerifier) Verify(jsonLdDoc []byte, opts ...processor.Opts) err
 
 // VerifyObject will verify document proofs for JSON LD object.
 func (dv *DocumentVerifier) VerifyObject(jsonLdObject map[string]interface{}, opts ...processor.Opts) error {
+	err := checkProofOptionTypes(jsonLdObject)
+	if err != nil {
+		return err
+	}
+
 	proofs, err := proof.GetProofs(jsonLdObject)
 	if err != nil {
 		return err
@@ -96,6 +101,40 @@ func (dv *DocumentVerifier) VerifyObject(jsonLdObject map[string]interface{}, op
 		err = suite.Verify(publicKey, message, signature)
 		if err != nil {
 			return err
+		}
+	}
+
+	return nil
+}
+
+// checkProofOptionTypes refuses a proof whose options are not JSON strings. The digest that is verified is rebuilt from the
+// options as proof.NewProof reads them, and it reads an option of any other JSON type as absent: such an option (a domain
+// given as an array, a number, an object ...) would not be covered by the signature and yet be carried through with the
+// verified document.
+func checkProofOptionTypes(jsonLdObject map[string]interface{}) error {
+	var entries []interface{}
+
+	switch p := jsonLdObject["proof"].(type) {
+	case []interface{}:
+		entries = p
+	case map[string]interface{}:
+		entries = []interface{}{p}
+	}
+
+	for _, e := range entries {
+		emap, ok := e.(map[string]interface{})
+		if !ok {
+			continue
+		}
+
+		for _, key := range []string{
+			"type", "created", "creator", "verificationMethod", "proofPurpose", "domain", "challenge", "nonce",
+		} {
+			if v, found := emap[key]; found && v != nil {
+				if _, isString := v.(string); !isString {
+					return fmt.Errorf("proof %s must be a string", key)
+				}
+			}
 		}
 	}
 
